@@ -8,6 +8,10 @@
 // VF-TECHNIQUE: exhaustive lattice evaluation with reference table and exact order/identity oracles
 // VF-BUDGET_QUICK: 120
 #include "vf.hpp"
+#include <sys/wait.h>
+#include <unistd.h>
+#include <cstring>
+#include <functional>
 #include <Bpp/Numeric/Random/RandomTools.h>
 #include <Bpp/Numeric/NumConstants.h>
 #include <Bpp/App/ApplicationTools.h>
@@ -512,6 +516,48 @@ int main(int argc, char** argv) {
       fd.flush(c, "qBeta(p,a=" + num(a) + ",b=" + num(b) + ")");
       if (idx == 100) c.sample("qBeta(" + num(P.row(start + n / 3)[0]) + "," + num(a) + "," + num(b) + ")=" + num(RandomTools::qBeta(P.row(start + n / 3)[0], a, b)) + " bracket [" + num(P.row(start + n / 3)[1]) + "," + num(P.row(start + n / 3)[2]) + "]");
     }, 3.0);
+  }
+
+  // ================= the functions are functions: the answer to a call does not depend on the calls made before it =================
+  // every ordered triple (x, y1, y2) of argument tuples of one function over a small lattice that contains interior points, both ends of the
+  // probability range and an invalid argument, for two parameter settings: r1 = f(x); f(y1); f(y2); r2 = f(x) must give r1 == r2 bit for bit
+  // (a raise counts as an answer). A cache or static buffer that survives between calls shows here and nowhere else.
+  {
+    struct Fn { const char* name; int npar; std::function<double(double, double, double)> f; std::vector<double> xs; std::vector<std::pair<double, double>> pars; };
+    static std::vector<Fn> FN = {
+      {"pNorm", 0, [](double x, double, double) { return RandomTools::pNorm(x); }, {-6, -0.5, 0, 2, 40}, {{0, 0}}},
+      {"qNorm", 0, [](double x, double, double) { return RandomTools::qNorm(x); }, {0, 0.3, 0.5, 0.999, 1, -0.1}, {{0, 0}}},
+      {"qNorm3", 2, [](double x, double a, double b) { return RandomTools::qNorm(x, a, b); }, {0, 0.3, 0.999, 1, -0.1}, {{0, 1}, {5, 0.001}}},
+      {"pGamma", 2, [](double x, double a, double b) { return RandomTools::pGamma(x, a, b); }, {0, 0.3, 2, 50, -1}, {{2, 3}, {0.5, 10}}},
+      {"qGamma", 2, [](double x, double a, double b) { return RandomTools::qGamma(x, a, b); }, {0, 0.3, 0.7, 1, -0.1}, {{2, 3}, {0.5, 10}}},
+      {"pChisq", 1, [](double x, double a, double) { return RandomTools::pChisq(x, a); }, {0, 0.3, 2, 50, -1}, {{1, 0}, {7, 0}}},
+      {"qChisq", 1, [](double x, double a, double) { return RandomTools::qChisq(x, a); }, {0, 0.3, 0.7, 1, -0.1}, {{1, 0}, {7, 0}}},
+      {"pBeta", 2, [](double x, double a, double b) { return RandomTools::pBeta(x, a, b); }, {0, 0.3, 0.9, 1, -0.1}, {{2, 3}, {10, 1}, {60, 10}}},
+      {"qBeta", 2, [](double x, double a, double b) { return RandomTools::qBeta(x, a, b); }, {0, 0.3, 0.9, 1, -0.1}, {{2, 3}, {10, 1}, {60, 10}}},
+    };
+    for (size_t fi = 0; fi < FN.size(); ++fi) {
+      size_t nt = FN[fi].xs.size() * FN[fi].pars.size();
+      R.space(std::string("call-order-independence:") + FN[fi].name + ":tuples" + str(nt) + "^3", (uint64_t)nt * nt * nt, [=](uint64_t idx, vf::Case& c) {
+        const Fn& F = FN[fi]; size_t nx = F.xs.size();
+        auto call = [&](size_t t, bool& raised) -> double { raised = false; double x = F.xs[t % nx]; auto pr = F.pars[t / nx]; try { return F.f(x, pr.first, pr.second); } catch (Exception&) { raised = true; return 0; } };
+        auto show = [&](size_t t) { auto pr = F.pars[t / nx]; return std::string(F.name) + "(" + vf::num(F.xs[t % nx]) + (F.npar >= 1 ? "," + vf::num(pr.first) : "") + (F.npar >= 2 ? "," + vf::num(pr.second) : "") + ")"; };
+        size_t tx = idx % nt, t1 = (idx / nt) % nt, t2 = idx / nt / nt;
+        c.site((std::string("RandomTools::") + F.name).c_str());
+        // the four calls run in a child of their own, forked from a process that has never called the library: whatever hidden state the
+        // functions keep is then the same at the start of every case (and of its replay), so a violation is a property of the triple alone
+        struct Ans { int e1, e2; double r1, r2; } A; memset(&A, 0, sizeof A);
+        int fd[2]; if (pipe(fd) != 0) { c.fail("harness|pipe", "pipe failed"); return; }
+        fflush(stdout); fflush(stderr);
+        pid_t pid = fork();
+        if (pid == 0) { close(fd[0]); bool e1, e2, ea, eb; Ans B; B.r1 = call(tx, e1); call(t1, ea); call(t2, eb); B.r2 = call(tx, e2); B.e1 = e1; B.e2 = e2; ssize_t w = write(fd[1], &B, sizeof B); (void)w; _exit(0); }
+        close(fd[1]); ssize_t got = read(fd[0], &A, sizeof A); close(fd[0]); int st = 0; waitpid(pid, &st, 0);
+        if (got != (ssize_t)sizeof A) { c.fail(std::string("purity|call-sequence-died|") + F.name, show(tx) + ", " + show(t1) + ", " + show(t2) + ", " + show(tx) + ": child ended with status " + str(st)); return; }
+        bool e1 = A.e1, e2 = A.e2; double r1 = A.r1, r2 = A.r2;
+        c.nontrivial(); c.tag(std::string("call-order:") + F.name);
+        if (e1 != e2 || (!e1 && std::memcmp(&r1, &r2, sizeof(double)) != 0))
+          c.fail(std::string("purity|answer-depends-on-earlier-calls|") + F.name, show(tx) + " = " + (e1 ? std::string("raised") : vf::num(r1)) + " at first, = " + (e2 ? std::string("raised") : vf::num(r2)) + " after " + show(t1) + " and " + show(t2));
+      }, CT);
+    }
   }
 
   bool allComplete = true;
